@@ -551,7 +551,9 @@ func RunPackage(t *Tool, p *Pkg, opt Options) *Outcome {
 					}
 					class := classifyCompile(e.Msg, s)
 					if s != nil && s.Combo != nil {
-						o.ComboErrs = append(o.ComboErrs, ComboCompileError{Struct: s, Class: class, Msg: normCompileMsg(e.Msg, s.Name), Raw: e.Msg})
+						if !strings.HasPrefix(e.Msg, "other declaration of") { // second line of a "redeclared" message
+							o.ComboErrs = append(o.ComboErrs, ComboCompileError{Struct: s, Class: class, Msg: normCompileMsg(e.Msg, s), Raw: e.Msg})
+						}
 						continue
 					}
 					key := opt.Prefix + "/compile/" + class
